@@ -338,7 +338,11 @@ pub fn program(ch: &mut Choices, o: &WildOpts) -> (Vec<Line>, WildInfo) {
     (lines, info)
 }
 
-pub const FAULT_KINDS: [&str; 14] = [
+pub const FAULT_KINDS: [&str; 18] = [
+    "interrupt-handler",
+    "handler-without-return",
+    "duplicate-label-at-end",
+    "duplicate-label-in-trailing-data",
     "undefined-jal-other-link",
     "label-at-eof-jal-other-link",
     "undefined-jump",
@@ -378,6 +382,51 @@ fn inject_faults(
         let at = *ch.pick(&ins_pos);
         let undef = |k: usize| format!("nowhere{k}");
         let applied = match kind {
+            "interrupt-handler" | "handler-without-return" => {
+                // a handler installed through utvec (never called); the sound one saves what it uses and ends in uret
+                let first_ins = ins_pos[0];
+                let name = if kind == "interrupt-handler" { "on_interrupt" } else { "on_trap" };
+                if lines.iter().any(|l| matches!(l, Line::Label(n) if n == name)) {
+                    false
+                } else {
+                    lines.insert(first_ins, ins("csrrw", vec![r(ZERO), Opd::C("utvec".into()), r(5)]));
+                    lines.insert(first_ins, ins("la", vec![r(5), Opd::L(name.into())]));
+                    lines.push(Line::Dir(".text".into(), vec![]));
+                    lines.push(Line::Label(name.into()));
+                    if kind == "interrupt-handler" {
+                        let (a, b) = *ch.pick(&[(5u8, 31u8), (6, 28), (31, 7), (29, 30)]);
+                        lines.push(ins("addi", vec![r(SP), r(SP), i(-8)]));
+                        lines.push(ins("sw", vec![r(a), m(0, SP)]));
+                        lines.push(ins("sw", vec![r(b), m(4, SP)]));
+                        lines.push(ins("li", vec![r(a), i(ch.int_in(1, 9))]));
+                        lines.push(ins("addi", vec![r(b), r(a), i(1)]));
+                        lines.push(ins("csrrw", vec![r(ZERO), Opd::C("uscratch".into()), r(b)]));
+                        lines.push(ins("lw", vec![r(a), m(0, SP)]));
+                        lines.push(ins("lw", vec![r(b), m(4, SP)]));
+                        lines.push(ins("addi", vec![r(SP), r(SP), i(8)]));
+                        lines.push(ins("uret", vec![]));
+                    } else {
+                        lines.push(ins("addi", vec![r(10), r(10), i(1)]));
+                        lines.push(ins("j", vec![Opd::L(name.into())]));
+                    }
+                    true
+                }
+            }
+            "duplicate-label-at-end" | "duplicate-label-in-trailing-data" => {
+                if labels.is_empty() {
+                    false
+                } else {
+                    let l = ch.pick(labels).clone();
+                    if kind == "duplicate-label-in-trailing-data" {
+                        lines.push(Line::Dir(".data".into(), vec![]));
+                        lines.push(Line::Label(l));
+                        lines.push(Line::Dir(".word".into(), vec![i(1)]));
+                    } else {
+                        lines.push(Line::Label(l));
+                    }
+                    true
+                }
+            }
             "undefined-jump" => {
                 lines.insert(at, ins("j", vec![Opd::L(undef(ch.below(3)))]));
                 true
